@@ -127,6 +127,11 @@ func c11Keys() []struct {
 	add("rsa-zero", &rsa.PrivateKey{})
 	add("rsa-zero-by-value", rsa.PrivateKey{})
 	add("rsa-public-only", &rsa.PrivateKey{PublicKey: fx.K("sp_rsa2048").RSA().PublicKey})
+	// complete keys in unusual shapes: the private exponent alone is enough to decrypt
+	full := fx.K("sp_rsa2048").RSA()
+	add("rsa-matching-no-primes", &rsa.PrivateKey{PublicKey: full.PublicKey, D: full.D})
+	add("rsa-matching-one-prime", &rsa.PrivateKey{PublicKey: full.PublicKey, D: full.D, Primes: full.Primes[:1]})
+	add("rsa-matching-no-precomputation", &rsa.PrivateKey{PublicKey: full.PublicKey, D: full.D, Primes: full.Primes})
 	add("bytes-nil", []byte(nil))
 	add("ecdsa-typed-nil", (*ecdsa.PrivateKey)(nil))
 	add("cert-typed-nil", (*x509.Certificate)(nil))
